@@ -23,6 +23,8 @@ type ReplayFn = fn(&'static Ctx, &Value);
 
 fn table() -> Vec<(&'static str, RunFn, ReplayFn)> {
     vec![
+        ("C20", props::c20::run as RunFn, props::c20::replay as ReplayFn),
+        ("C18", props::c18::run as RunFn, props::c18::replay as ReplayFn),
         ("C17", props::c17::run as RunFn, props::c17::replay as ReplayFn),
         ("C15", props::c15::run as RunFn, props::c15::replay as ReplayFn),
         ("C19", props::c19::run as RunFn, props::c19::replay as ReplayFn),
@@ -63,6 +65,17 @@ fn main() {
         replay(ctx, &v["case"]);
         let code = ctx.finish("other", serde_json::json!({}), vec![]);
         std::process::exit(code);
+    }
+    if args.get(3).map(|s| s.as_str()) == Some("--worker") {
+        let tier = if args[2] == "thorough" { Tier::Thorough } else { Tier::Quick };
+        let i: usize = args.get(4).and_then(|x| x.parse().ok()).unwrap_or(0);
+        let n: usize = args.get(5).and_then(|x| x.parse().ok()).unwrap_or(1);
+        let ctx: &'static Ctx = Box::leak(Box::new(Ctx::new(prop, tier, true)));
+        match prop {
+            "C18" => props::c18::worker(ctx, i, n),
+            _ => machinery("no worker mode for this property"),
+        }
+        std::process::exit(0);
     }
     let tier = match args[2].as_str() {
         "quick" => Tier::Quick,
